@@ -26,6 +26,7 @@
 #define atoi vc_atoi
 #include "compat/libc/stdlib/atol.c"
 #include "igris/util/printf_impl.c"
+#include "c06_pform.h"
 
 #if FMT == 0
 #define FORMAT "ab%%c%dx%s"
@@ -87,7 +88,7 @@ void harness(void)
             __CPROVER_assert(g_e_width == E->width, "k-th event: field width as written (digits or * argument)");
             __CPROVER_assert(g_e_h == c06_event_recorder && g_e_d == (void *)&g_cbdata, "k-th event: callback and data passed on");
             if (E->conv == 'p') {
-                __CPROVER_assert(g_e_u == E->u && g_e_base == 16 && g_e_signed == 0 && g_e_prec == (int)(2 * sizeof(void *) + 2) &&
+                __CPROVER_assert(g_e_u == E->u && g_e_base == 16 && g_e_signed == 0 && g_e_prec == g_c06_p_minlen &&
                                  (g_e_ops & (C06_OPS_FMT_MASK & ~(C06_OPS_PREC))) == ((ops_want | C06_OPS_SPEC | C06_OPS_ZERO) & ~C06_OPS_PREC),
                                  "k-th event: %p takes the pointer from its slot, fixed 0x form");
             } else {
